@@ -16,6 +16,9 @@
 (* (outermost first):                                                       *)
 (*   pcall xpcall   pcall(function() INNER end)            -- one shot      *)
 (*   ploop xloop    while true do pcall(function() INNER end) end           *)
+(*   xpcallh xlooph the same with a message handler that does not hand the   *)
+(*                  error text on (returns a table): what the handler makes  *)
+(*                  of the error has no influence on the time limit          *)
 (*   cowrap         coroutine.wrap(function() INNER end)()                  *)
 (*   cores          coroutine.resume(coroutine.create(function() INNER end))*)
 (*   clear          _lua_clear_timeout_hook(); INNER                        *)
@@ -51,8 +54,8 @@ D == Limit0
 
 Infinite == {"tight", "lib", "tailrec"}
 AllBodies == Infinite \cup {"deeprec"}
-Catchers == {"pcall", "xpcall", "cores"}
-Loops == {"ploop", "xloop"}
+Catchers == {"pcall", "xpcall", "xpcallh", "cores"}
+Loops == {"ploop", "xloop", "xlooph"}
 CoKinds == {"cowrap", "cores"}
 Controls == {"clear", "rearm", "inv"}
 AllKinds == Catchers \cup Loops \cup {"cowrap"} \cup Controls
@@ -94,7 +97,7 @@ Sem(b, W, i, s, Dv) ==
     [rs |-> {IF b \in Infinite THEN (IF Eff(s) THEN "T" ELSE "H") ELSE "E"}, s |-> s]
   ELSE
     LET w == W[i] IN
-    CASE w \in {"pcall", "xpcall"} ->
+    CASE w \in {"pcall", "xpcall", "xpcallh"} ->
            LET x == Sem(b, W, i + 1, s, Dv) IN
            [rs |-> {Caught(r, Dv) : r \in x.rs}, s |-> x.s]
       [] w \in CoKinds ->
@@ -193,7 +196,7 @@ Enter ==
   /\ IF AtLoopLevel
      THEN Push("lpc", Depth) /\ UNCHANGED <<hooked, limit>>      \* next iteration: pcall(function() ... end)
      ELSE LET w == W[Depth + 1] d == Depth + 1 t == Cur IN
-     CASE w \in {"pcall", "xpcall"} ->
+     CASE w \in {"pcall", "xpcall", "xpcallh"} ->
             Push(w, d) /\ UNCHANGED <<hooked, limit>>
        [] w \in Loops ->
             Push("loop", d) /\ UNCHANGED <<hooked, limit>>
